@@ -121,6 +121,8 @@ def directed():
     add("runtime", "select abs(cast('-128' as tinyint))")
     add("runtime", "select repeat('x', 2000000000)")
     add("runtime", "select lpad('x', 2000000000, 'y')")
+    add("runtime", "select split_part('a,b', ',', -9223372036854775808)")          # repaired 9a26b86c9: a panic here is a violation again
+    add("runtime", "select a from (select [1, 2] as a union all select [0]) s order by a")   # repaired 59d348515 (not-implemented error)
     add("runtime", "select * from generate_series(1, 10, 0)")
     add("runtime", "select substring('hello', 0, 2)")
     add("runtime", "select substring('hello', -9223372036854775808, 9223372036854775807)")
@@ -134,8 +136,8 @@ def directed():
     add("long", "select 1" + " " * 200000)
     add("long", "select " + "a" * 100000 + " from probe_t")
     add("long", " union all ".join(["select 1"] * 150))
-    add("long", "select * from probe_t where " + " and ".join(["a = %d" % i for i in range(300)]))
-    add("long", "select * from probe_t where " + " or ".join(["a = %d" % i for i in range(300)]))
+    add("long", "select * from probe_t where " + " and ".join(["a = %d" % i for i in range(150)]))   # planning is superlinear: 300 conjuncts take 5 s (0.5 s optimizer off)
+    add("long", "select * from probe_t where " + " or ".join(["a = %d" % i for i in range(150)]))
     add("long", "values " + ", ".join("(%d)" % i for i in range(5000)))
     add("long", "select " + "-" * 300 + "1")
     add("long", "select " + "not " * 300 + "true")
